@@ -136,6 +136,16 @@ theorem cache_never_crosses_slots_from_empty {K : Type} (validNs : Int) (derive 
     ∀ p ∈ run validNs derive State.empty ops, p.2.epoch = epoch p.1.wall ∧ p.2.keys = derive (epoch p.1.wall) :=
   cache_never_crosses_slots validNs derive State.empty Mieru.Proofs.C08.empty_ok ops
 
+/-- …and for CONCURRENT histories (`ConcRun`): goroutines interleave between an operation's Load and
+    its Store, every Load of the `sync.Map` slot or of a decryptor's `atomic.Pointer` returns an
+    arbitrary previously stored entry (not necessarily the latest).  Still every operation uses the
+    keys derived for the slot of its own instant, and nothing inconsistent is ever stored. -/
+theorem cache_never_crosses_slots_concurrent {K : Type} (validNs : Int) (derive : Int → K)
+    (pool : List (Entry K)) (used : List (Instant × Entry K)) (h : ConcRun validNs derive pool used) :
+    (∀ e ∈ pool, e.keys = derive e.epoch) ∧
+    ∀ p ∈ used, p.2.epoch = epoch p.1.wall ∧ p.2.keys = derive (epoch p.1.wall) :=
+  Mieru.Proofs.C08.conc_ok validNs derive pool used h
+
 /-- **Handshake key under skew.**  Whatever the cache and the decryptors went through before, a
     receiver (any decryptor `dec`) whose wall clock is within 120 s of the instant the sender's key was
     derived for tries a key list that contains that key (keys indexed by the slot they are derived for;
@@ -602,6 +612,20 @@ example : (run cacheValidNs (fun e => e) State.empty
        .tryDecrypt 0 ⟨182000000000, none⟩ 0, .tryDecrypt 1 ⟨179000000000, none⟩ 0]).map
     (fun p => (p.2.epoch, p.2.createTime.wall)) =
       [(120, 61000000000), (120, 61000000000), (240, 181000000000), (240, 181000000000), (120, 179000000000)] := by decide
+-- a concurrent history (listed latest first): the second operation (another goroutine, instant in the NEXT slot)
+-- loaded the cache slot before the first one stored (it sees nothing); the third one sees the entry of the first
+example : ∃ pool used, ConcRun cacheValidNs (fun e : Int => e) pool used ∧
+    used.map (fun p => (p.1.wall, p.2.epoch, p.2.createTime.wall)) =
+      [(62000000000, 120, 61000000000), (181000000000, 240, 181000000000), (61000000000, 120, 61000000000)] := by
+  refine ⟨_, _, .op _ _ (some (step cacheValidNs (fun e : Int => e) ⟨none, fun _ => none⟩ (.lookup ⟨61000000000, none⟩ 0)).1) none
+      ?_ (by simp) (.lookup ⟨62000000000, none⟩ 0)
+      (.op _ _ none none (by simp) (by simp) (.tryDecrypt 0 ⟨181000000000, none⟩ 0)
+        (.op _ _ none none (by simp) (by simp) (.lookup ⟨61000000000, none⟩ 0) .nil)), ?_⟩
+  · intro e he
+    simp only [Option.some.injEq] at he
+    subst he
+    simp
+  · decide
 -- monotonic and wall clock disagree (wall clock stepped back by 39 s inside one slot): the AGE is taken from the
 -- monotonic readings (40 s > 30 s: refreshed), the SLOT from the wall clock (still 120) …
 example : (run cacheValidNs (fun e => e) State.empty
